@@ -1142,6 +1142,14 @@ func (x *Exec) step(sc *Scenario, in Input) {
 		x.emit(ev)
 		if in.Op == "rmrealm" && rc.idx == in.R {
 			rc.alive = false
+			// its sessions are history: a session that was not reading keeps its queue to itself
+			// (the realm may be created again from the template; that is another life)
+			for _, q := range x.peers {
+				if q.realm == rc.idx {
+					q.gone = true
+					q.deaf = true
+				}
+			}
 		}
 
 	}
